@@ -25,7 +25,9 @@ from lx.lifted import TWIN, LiftedScript, dump_runner, twin_fault
 from lx.tree import Names
 
 PID = "C10"
-BOUNDS = ("monitor: 24 edge-case statements x their dialect, names free (2 characters); silent: scripts of 1-3 supported statements + one "
+BOUNDS = ("monitor: 44 edge-case statements x their dialect (incl. more than one write target, SELECT INTO inside a derived table / CTE, a scalar subquery over a "
+          "constants-only derived table), names free (2 characters), every accessor of the same runner asked again after a library exception; silent (also under "
+          "dialect tsql in TSQL_NO_SEMICOLON mode): scripts of 1-3 supported statements + one "
           "unsupported statement at position k in 0..3, 4 unsupported kinds; parse kernel: 0-3 violations of 4 classes, statement text of "
           "4 symbolic characters over {a, %, {, }, ', \\, ;, space}. Arbitrary / mutated text is NOT claimed")
 STUBS = ["sqllineage.runner.split / SqlFluffLineageAnalyzer._list_specific_statement_segment (parser boundary; monitor and silent families)",
